@@ -28,6 +28,9 @@ type System struct {
 	ExtIn  int         `json:"ext_in"`
 	ExtOut int         `json:"ext_out"`
 	Bonds  [][2]string `json:"bonds"` // endpoint names as the CLI uses them: i0, o0, p0i1, p1o0
+	// DomainOf (optional): Procs are then DOMAINS and processor i is an instance of domain DomainOf[i] (several
+	// processors may share a domain, as `bondmachine -add-domains A,B -add-processor 0 -add-processor 0 ...` builds them).
+	DomainOf []int `json:"domain_of,omitempty"`
 }
 
 // Build creates the BondMachine through the real API (one domain per processor).
@@ -53,7 +56,14 @@ func Build(s System) (*bondmachine.Bondmachine, error) {
 		}
 		m.Program = prog
 		b.Domains = append(b.Domains, m)
-		if _, err := b.Add_processor(len(b.Domains) - 1); err != nil {
+		if s.DomainOf == nil {
+			if _, err := b.Add_processor(len(b.Domains) - 1); err != nil {
+				return nil, err
+			}
+		}
+	}
+	for _, d := range s.DomainOf {
+		if _, err := b.Add_processor(d); err != nil {
 			return nil, err
 		}
 	}
